@@ -442,7 +442,11 @@ type vC08Reply struct {
 	ok    bool
 }
 
-func (p *vC08Pipe) ask(name string, qtype uint16) vC08Reply {
+// ask sends one client query through cache + resolver. wire selects the ingress shape:
+// false = a decoded dns.Msg (Chain.Reset: DoH/DoQ, sub-pipelines), true = a wire-born
+// request as the server's raw UDP/TCP ingress hands it over (Chain.ResetWire + an undecoded
+// middleware.Request, which the cache materializes on a miss).
+func (p *vC08Pipe) ask(name string, qtype uint16, wire bool) vC08Reply {
 	req := new(dns.Msg)
 	req.SetQuestion(dns.Fqdn(name), qtype)
 	req.SetEdns0(1232, false)
@@ -452,8 +456,22 @@ func (p *vC08Pipe) ask(name string, qtype uint16) vC08Reply {
 		hs = []middleware.Handler{p.cm, p.tap, p.h}
 	}
 	ch := middleware.NewChain(hs)
-	ch.Reset(mw, req)
-	ch.Next(context.Background())
+	if wire {
+		raw, err := req.Pack()
+		if err != nil {
+			return vC08Reply{src: -1}
+		}
+		wreq := new(middleware.Request)
+		if !wreq.ParseWire(raw, time.Now(), nil) {
+			return vC08Reply{src: -1}
+		}
+		ch.ResetWire(mw, wreq)
+		ch.Next(context.Background())
+		ch.Finish()
+	} else {
+		ch.Reset(mw, req)
+		ch.Next(context.Background())
+	}
 	if !mw.Written() {
 		return vC08Reply{src: -1}
 	}
